@@ -55,6 +55,8 @@ def statics_audit(cx, rule):
 def run(cx):
     cx.rule("C13.R1", "K1", "Runtime::start creates and launches a process only if no process with that id is cached or stored; otherwise it returns an error")
     cx.rule("C13.R2", "K3", "no process-shared mutable static in crate acts")
+    cx.rule("C13.R4", "K1", "work done for all live processes in one pass (the shared tick) treats each process on its own: plain loop without early exit, no short-circuiting adaptor, no per-process failure propagated out of the pass")
+    r4_shared_passes(cx)
     cx.rule("C13.R3", "E3", "keying: the cache is keyed by proc.id(), task rows by (pid, tid); task rows are loaded and removed by pid")
     m = cx.m
     pa = Prov(m, "alias")
@@ -117,3 +119,74 @@ def run(cx):
     cx.ob("C13.R3", "load:into-that-process", ok, "loaded tasks are attached to that same process", tn[0].loc if tn else lt.loc())
     cx.note("C13: independence from cache capacity / eviction reduces to C12 (reload transparency) and inherits its findings; load and thread-count independence are not decided")
     cx.floor("C13.R3", 4)
+
+
+
+SHORT_CIRCUIT = re.compile(r"Iterator(>)?::(try_for_each|try_fold|any|all|find|find_map|position|rposition|take_while|map_while|skip_while|scan|try_find|reduce|fold|zip|take|skip|step_by|nth|last|next|peekable)$")
+PER_ELEMENT = re.compile(r"Iterator(>)?::(for_each|map|filter|filter_map|cloned|copied|collect|count|inspect|enumerate|flat_map|rev)$|::iter$|::into_iter$|Deref>::deref$")
+
+
+def pass_shape(m, pa, f, c):
+    """how the collection returned by call c of f is traversed in f: list of (verdict, detail, call) with verdict in
+    loop-ok | loop-early-exit | for_each | short-circuit | unused"""
+    from rules.c16 import natural_loops
+    from rules.c07 import loop_exits
+    from vlib.model import ITER_NEXT
+    src = ("call", c.q, c.b)
+    loops = natural_loops(f)
+    out = []
+    for x in f.calls():
+        if ITER_NEXT.search(x.q):
+            it = pa.iter_source(f, ("call", x.q, x.b, ()))
+            if it is not None and it[0][:3] == src:
+                bad_ad = [a for a in it[2] if not PER_ELEMENT.search(a)]
+                inner = sorted([(len(body), h, body) for h, body in loops if x.b in body])
+                exits = loop_exits(f, inner[0][1], inner[0][2]) if inner else None
+                only_end = False
+                if exits is not None and len(exits) == 1:
+                    t = f.blocks[exits[0][0]]["t"]
+                    r = pa.root(f, t[1]) if t[0] == "switch" else None
+                    only_end = r is not None and r[0] == "discr" and r[1][:3] == ("call", x.q, x.b)
+                out.append(("loop-ok" if (only_end and not bad_ad) else "loop-early-exit", "exits %s, adaptors %s" % (exits, [short_name(a) for a in it[2]]), x))
+        elif x.args and re.search(r"Iterator(>)?::", x.q):
+            r = pa.root(f, x.args[0])
+            depth = 0
+            while r[0] == "call" and depth < 6 and r[:3] != src:
+                cc = Call(f, r[2])
+                if not cc.args:
+                    break
+                r = pa.root(f, cc.args[0])
+                depth += 1
+            if r[:3] != src:
+                continue
+            if re.search(r"Iterator(>)?::for_each$", x.q):
+                out.append(("for_each", "", x))
+            elif SHORT_CIRCUIT.search(x.q) or not PER_ELEMENT.search(x.q):
+                out.append(("short-circuit", short_name(x.q), x))
+    return out or [("unused", "", c)]
+
+
+def r4_shared_passes(cx):
+    m = cx.m
+    pa = Prov(m, "alias")
+    n = 0
+    for f in m.fns.values():
+        if not f.q.startswith("acts::") or f.q.startswith("acts::cache::cache::Cache::procs"):
+            continue
+        for c in f.calls():
+            if not c.q.endswith("cache::Cache::procs"):
+                continue
+            n += 1
+            for verdict, detail, x in pass_shape(m, pa, f, c):
+                key = "pass:%s:%s" % (short_name(f.q), verdict if verdict != "loop-early-exit" else "loop")
+                if verdict in ("loop-ok", "loop-early-exit"):
+                    cx.ob("C13.R4", "pass:%s:loop" % short_name(f.q), verdict == "loop-ok",
+                          "`%s` visits every live process: the loop over Cache::procs() ends only when the iterator does (%s) - one process cannot cut the pass short for the others" % (short_name(f.q), detail), x.loc)
+                elif verdict == "short-circuit":
+                    cx.ob("C13.R4", "pass:%s:adaptor:%s" % (short_name(f.q), x.q.split("::")[-1]), False,
+                          "`%s` runs the live processes through `%s`, which stops at / depends on other elements: a failing process ends the pass for every process behind it" % (short_name(f.q), detail), x.loc)
+                else:
+                    cx.ob("C13.R4", key, True, "`%s` %s" % (short_name(f.q), "visits every live process with for_each" if verdict == "for_each" else "takes the list of live processes without iterating it here"), x.loc)
+    if n == 0:
+        raise Anchor("no pass over Cache::procs() found")
+    cx.floor("C13.R4", 1)
